@@ -227,6 +227,7 @@ type poolCfg struct {
 	LifeMs    int `json:"max_lifetime_ms"`
 	IdleMs    int `json:"max_idle_ms"`
 	HealthMs  int `json:"health_period_ms"`
+	Compression int `json:"compression,omitempty"`
 	CloseErr  bool `json:"conn_close_reports_error,omitempty"` // net.Conn.Close tears the connection down but returns an error
 }
 
@@ -240,7 +241,7 @@ func runPoolOps(cfg poolCfg, ops []poolOp) (tr poolTrace) {
 	srv := &poolSrv{max: cfg.MaxConns, slow: map[string]chan struct{}{}, lastConn: map[string]int{}, closeErr: cfg.CloseErr}
 	ctx := context.Background()
 	opt := chpool.Options{
-		ClientOptions:     ch.Options{Logger: zap.NewNop(), Dialer: srv, Address: "sim:9000", ReadTimeout: 60 * time.Millisecond},
+		ClientOptions:     ch.Options{Logger: zap.NewNop(), Dialer: srv, Address: "sim:9000", ReadTimeout: 60 * time.Millisecond, Compression: ch.Compression(cfg.Compression)},
 		MaxConns:          int32(cfg.MaxConns),
 		MaxConnLifetime:   time.Duration(cfg.LifeMs) * time.Millisecond,
 		MaxConnIdleTime:   time.Duration(cfg.IdleMs) * time.Millisecond,
